@@ -68,17 +68,20 @@ def level_of(filt, cols, i):
     """The filter's level of row i, from the statement."""
     if filt == "cn":
         lv = (cols["cn"][i],)
-        if "cn1" in cols:
-            lv += (cols["cn1"][i], cols["cn2"][i])
-        return lv
-    if filt == "ci":
-        return (If(cols["ci_lo"][i] > 0, 1, If(cols["ci_hi"][i] < 0, -1, 0)),)
-    if filt == "sem":
+    elif filt == "ci":
+        lv = (If(cols["ci_lo"][i] > 0, 1, If(cols["ci_hi"][i] < 0, -1, 0)),)
+    elif filt == "sem":
         m = cols["sem"][i] * 1.96
-        return (If(cols["log2"][i] - m > 0, 1, If(cols["log2"][i] + m < 0, -1, 0)),)
-    if filt == "ampdel":
-        return (If(cols["cn"][i] == 0, -1, If(cols["cn"][i] >= 5, 1, 0)),)
-    raise KeyError(filt)
+        lv = (If(cols["log2"][i] - m > 0, 1, If(cols["log2"][i] + m < 0, -1, 0)),)
+    elif filt == "ampdel":
+        lv = (If(cols["cn"][i] == 0, -1, If(cols["cn"][i] >= 5, 1, 0)),)
+    else:
+        raise KeyError(filt)
+    if "cn1" in cols:
+        # doc/pipeline.rst on `call --filter`: "In each case ... Segments on different chromosomes or
+        # with different allele-specific copy number values will not be merged"
+        lv += (cols["cn1"][i], cols["cn2"][i])
+    return lv
 
 
 def runs_of(filt, cols):
@@ -125,7 +128,7 @@ def check_merged(ctx, filt, cols, out, runs, what):
 
 
 def h_single(ctx, filt, chroms, alleles=False):
-    cols = sym_table(ctx, chroms, with_cn=filt in ("cn", "ampdel"), with_alleles=alleles, with_ci=filt == "ci", with_sem=filt == "sem")
+    cols = sym_table(ctx, chroms, with_cn=filt in ("cn", "ampdel") or alleles, with_alleles=alleles, with_ci=filt == "ci", with_sem=filt == "sem")
     cna = make_cna(cols)
     try:
         out = getattr(segfilters, filt)(cna)
@@ -177,6 +180,10 @@ def _single_cfgs():
             if n == 3 and lay[1] != lay[2]:
                 c["tier"] = "thorough"
             out.append(c)
+    # allele-specific copy numbers keep segments apart under every filter (already-called tables)
+    for filt in ("ampdel", "ci", "sem"):
+        out.append({"filt": filt, "chroms": ["chr1", "chr1"], "alleles": True})
+        out.append({"filt": filt, "chroms": ["chr1"] * 3, "alleles": True, "tier": "thorough"})
     return out
 
 
